@@ -141,19 +141,3 @@ Proof. vm_compute. split; reflexivity. Qed.
 
 Example C06_len_nonvacuous : len ex_f = 6%Z /\ len [] = 0%Z.
 Proof. vm_compute. split; reflexivity. Qed.
-
-(* ---- tie of the model's normalize_slice to the function text in the repository ----------
-   Gen/Pure.v holds the syntax tree of curtsies.formatstring.normalize_slice, dumped from the
-   Python AST of the working tree on every run (gen/gen_pure.py); [PyMini.call] is the
-   reference semantics of that Python subset (Spec/PyMini.v).  For EVERY length and every
-   index (int, or slice with any mix of int / None bounds and step): running the
-   repository's function text gives exactly what the model computes -- the same slice
-   bounds, IndexError, or NotImplementedError.  An edit of normalize_slice that changes its
-   meaning breaks this obligation. *)
-From Curtsies Require Spec.PyMini Gen.Pure Proofs.PureTie.
-Theorem C06_normalize_slice_is_the_repository_function :
-  forall (length : Z) (ix : index),
-    PyMini.call Pure.py_normalize_slice [PyMini.VInt length; PureTie.embed_index ix]
-    = PureTie.embed_bounds (normalize_slice length ix).
-Proof. exact PureTie.normalize_slice_tie. Qed.
-Print Assumptions C06_normalize_slice_is_the_repository_function.
